@@ -70,6 +70,8 @@ def app(environ, start_response):
         hdrs = [("Content-Type", "text/plain")]
         if cl != "none":
             hdrs.append(("Content-Length", cl))
+        if q.get("who"):
+            hdrs.append(("X-Worker", str(os.getpid())))
         text = {"200": "200 OK", "201": "201 Created", "204": "204 No Content", "304": "304 Not Modified", "404": "404 Not Found"}[status]
         write = start_response(text, hdrs)
         if prod == "write":
